@@ -61,7 +61,7 @@ mutual
     | .s _ :: es, D, h => SoundSegs.s (reflSegs es D (NoRefSegs.s.mp h))
     | .v e :: es, D, h => SoundSegs.v (reflE e D (NoRefSegs.v.mp h).1) (reflSegs es D (NoRefSegs.v.mp h).2)
   theorem reflT : ∀ (e : Expr) (D : List DName), NoRefT D e → SoundT Q cx D e e
-    | .var _, _, h => SoundT.var (NoRefT.var.mp h).1
+    | .var _, _, h => SoundT.var (NoRefT.var.mp h)
     | .field x _, D, h => SoundT.field (reflE x D (NoRefT.field.mp h))
     | .index x k, D, h => SoundT.index (reflE x D (NoRefT.index.mp h).1) (reflE k D (NoRefT.index.mp h).2)
     | .nil, _, _ => SoundT.nonLv rfl rfl | .true, _, _ => SoundT.nonLv rfl rfl | .false, _, _ => SoundT.nonLv rfl rfl
@@ -84,24 +84,24 @@ mutual
       SoundS.function (fun _ hr => by simp at hr)
         (hq D _ (NoRefF.addSelf (NoRefS.functionNil.mp h).2 (NoRefS.functionNil.mp h).1))
     | .function (root :: _) m f, D, h =>
-      SoundS.function (fun _ hr => by cases hr; exact (NoRefS.functionCons.mp h).1)
+      SoundS.function (fun _ hr => by cases hr; exact ⟨(NoRefS.functionCons.mp h).1, (NoRefS.functionCons.mp h).2.1⟩)
         (hq D _ (NoRefF.addSelf (NoRefS.functionCons.mp h).2.2.2 (NoRefS.functionCons.mp h).2.2.1))
     | .gfor _ vs b, D, h =>
-      SoundS.gfor rfl (reflEs vs D (NoRefS.gfor.mp h).2.1)
+      SoundS.gfor rfl (Heap.NoWat.names (NoRefS.gfor.mp h).1) (reflEs vs D (NoRefS.gfor.mp h).2.1)
         (reflB b D (NoRefS.gfor.mp h).2.2)
     | .nfor (.mk _ _) a b none body, D, h =>
-      SoundS.nforNone rfl (reflE a D (NoRefS.nforNone.mp h).2.1)
+      SoundS.nforNone rfl (NoRefS.nforNone.mp h).1 (reflE a D (NoRefS.nforNone.mp h).2.1)
         (reflE b D (NoRefS.nforNone.mp h).2.2.1) (reflB body D (NoRefS.nforNone.mp h).2.2.2)
     | .nfor (.mk _ _) a b (some st) body, D, h =>
-      SoundS.nforSome rfl (reflE a D (NoRefS.nforSome.mp h).2.1)
+      SoundS.nforSome rfl (NoRefS.nforSome.mp h).1 (reflE a D (NoRefS.nforSome.mp h).2.1)
         (reflE b D (NoRefS.nforSome.mp h).2.2.1) (reflE st D (NoRefS.nforSome.mp h).2.2.2.1)
         (reflB body D (NoRefS.nforSome.mp h).2.2.2.2)
     | .ifs brs none, D, h => SoundS.ifsNone (reflBranches brs D (NoRefS.ifsNone.mp h))
     | .ifs brs (some b), D, h =>
       SoundS.ifsSome (reflBranches brs D (NoRefS.ifsSome.mp h).1) (reflB b D (NoRefS.ifsSome.mp h).2)
     | .localAssign _ _ vs, D, h =>
-      SoundS.localAssign rfl (reflEs vs D (NoRefS.localAssign.mp h).2)
-    | .localFn _ _ f, D, h => SoundS.localFn (hq D f (NoRefS.localFn.mp h).2)
+      SoundS.localAssign rfl (Heap.NoWat.names (NoRefS.localAssign.mp h).1) (reflEs vs D (NoRefS.localAssign.mp h).2)
+    | .localFn _ _ f, D, h => SoundS.localFn (NoRefS.localFn.mp h).1 (hq D f (NoRefS.localFn.mp h).2)
     | .repeat_ b c, D, h =>
       SoundS.repeat_ (SoundRep.mk (reflB b D (NoRefS.repeat_.mp h).1) (reflE c D (NoRefS.repeat_.mp h).2))
     | .while_ c b, D, h => SoundS.while_ (reflE c D (NoRefS.while_.mp h).1) (reflB b D (NoRefS.while_.mp h).2)
